@@ -50,12 +50,27 @@ func verifArg(name string, kinds int) Object {
 // verifLongArg: a long argument of length n (lengths around buffer-size
 // boundaries matter, contents do not: all bytes/elements are 'a').
 // kind 0 bytes, 1 string, 2 array of ints, 3 array holding the bytes and the
-// string, 4 map holding them.
+// string, 4 map holding them; 5 bytes all 0xff, 6 a JSON string literal of
+// 0xff bytes, 7 a JSON string literal of 'a', 8 digits, 9 = 6 as a string.
 func verifLongArg(name string, n, kind int) Object {
 	b := byte('a') // (a symbolic fill byte costs one solver query per element and adds nothing here)
 	raw := make([]byte, n)
 	for i := range raw {
 		raw[i] = b
+	}
+	// kinds 5-9: the content classes a parsing function distinguishes
+	if kind >= 5 {
+		fill := [...]byte{0xff, 0xff, 'a', '7', 0xff}[kind-5]
+		for i := range raw {
+			raw[i] = fill
+		}
+		if kind == 6 || kind == 7 || kind == 9 {
+			raw[0], raw[n-1] = '"', '"' // a JSON string literal
+		}
+		if kind == 9 {
+			return String(raw)
+		}
+		return Bytes(raw)
 	}
 	switch kind {
 	case 0:
